@@ -14,7 +14,7 @@ DEC_CFG = "INIT Init\nNEXT Next\nINVARIANT Done\nCHECK_DEADLOCK FALSE\n"
 
 def _decode_chunk(args):
     import sys
-    sys.path.insert(0, "/repo")
+    sys.path.insert(0, os.environ.get("VERIF_REPO", "/repo"))
     from harness import codec
     proto, items = args
     out = []
@@ -138,7 +138,7 @@ def check_c05(rep):
 
 def _crc_cases(args):
     import sys
-    sys.path.insert(0, "/repo")
+    sys.path.insert(0, os.environ.get("VERIF_REPO", "/repo"))
     from harness import codec
     lo, hi = args
     out = []
@@ -172,7 +172,7 @@ def _exc(r):
 def _fold3(args):
     """All 3-byte strings with first byte in [lo, hi): real calculate() against the fold with TLC's table."""
     import sys
-    sys.path.insert(0, "/repo")
+    sys.path.insert(0, os.environ.get("VERIF_REPO", "/repo"))
     from harness import codec
     lo, hi, t8, sample = args
     calc = codec.registry("at5").checksum_calculator.calculate
@@ -246,7 +246,9 @@ def check_c06(rep):
     rng = random.Random(lib.seed())
     scripts = []
     for proto in ("at4", "at5"):
-        kinds = GM.bases(proto)
+        # a header-only frame first (no payload at all: every covered byte is header), then every base payload
+        kinds = {"HeaderOnly": [(0x2D if proto == "at4" else 0x41, [])]}
+        kinds.update(GM.bases(proto))
         for ki, (kind, lst) in enumerate(kinds.items()):
             typ, payload = lst[0]
             from harness import console as C
